@@ -6,6 +6,7 @@ pub mod c04;
 pub mod c05;
 pub mod c06;
 pub mod c07;
+pub mod c08;
 pub mod c11;
 pub mod c12;
 pub mod c13;
@@ -22,6 +23,7 @@ pub fn get(id: &str) -> Option<Box<dyn Prop>> {
     "C05" => Some(Box::new(c05::C05)),
     "C06" => Some(Box::new(c06::C06)),
     "C07" => Some(Box::new(c07::C07)),
+    "C08" => Some(Box::new(c08::C08)),
     "C11" => Some(Box::new(c11::C11)),
     "C12" => Some(Box::new(c12::C12)),
     "C13" => Some(Box::new(c13::C13)),
